@@ -76,8 +76,8 @@ DRIVERS = [
     dict(name="c06_conv", src="c06_kernel.cpp", defines=["OP_CONV"], ops=["conv"]),
     dict(name="c06_conva", src="c06_kernel.cpp", defines=["OP_CONVA"], ops=["conva"]),
     dict(name="c06_sweep", src="c06_kernel.cpp", defines=["OP_SWEEP"], ops=["convsweep"], opt="-O2"),
-    dict(name="c06_path_lp32", src="c06_path.cpp", defines=["VERIF_CFG=verif_cfg32"], ops=["store", "load", "arg", "ret", "cbarg", "cbret", "equiv", "storemix"]),
-    dict(name="c06_path_wide", src="c06_path.cpp", defines=["VERIF_CFG=verif_cfgwide"], ops=["wstore", "wload", "warg", "wret", "wcbarg", "wcbret", "wequiv", "wstoremix"]),
+    dict(name="c06_path_lp32", src="c06_path.cpp", defines=["VERIF_CFG=verif_cfg32"], ops=["store", "load", "loadcv", "loadcvp", "loadidx", "loadcvr", "arg", "ret", "cbarg", "cbret", "equiv", "storemix"]),
+    dict(name="c06_path_wide", src="c06_path.cpp", defines=["VERIF_CFG=verif_cfgwide"], ops=["wstore", "wload", "wloadcv", "wloadcvp", "wloadidx", "wloadcvr", "warg", "wret", "wcbarg", "wcbret", "wequiv", "wstoremix"]),
 ]
 
 
@@ -179,7 +179,9 @@ def gen_cases(tier, rng):
                 for op in ("store", "arg", "cbret"):
                     cases.append("%s%s %s %s %d" % (pre, op, abi, k, v))
             for v in sorted(set(guest_vals)):
-                for op in ("load", "ret", "cbarg"):
+                for op in ("load", "ret", "cbarg", "loadcv", "loadcvp", "loadidx", "loadcvr"):
+                    if k == "bool" and op != "load" and op != "ret" and op != "cbarg":
+                        continue      # (std::unique_ptr<bool[]> / a guest bool other than 0/1: left to the scalar paths)
                     cases.append("%s%s %s %s %d" % (pre, op, abi, k, v))
         # a plain value of one integer type stored through a tainted pointer to another type (every ordered pair)
         for k in KINDS:
